@@ -344,21 +344,21 @@ Proof.
 Qed.
 
 Lemma http_discard_ideal_persistent fuel : forall rem k,
-  persistent k -> persistent (http_discard true fuel rem k).
+  persistent k -> persistent (http_discard false fuel rem k).
 Proof.
   induction fuel as [|f IH]; intros rem k Hk; cbn [http_discard]; [constructor|].
   destruct rem; [exact Hk|]. constructor. intros b. destruct b; [exact Hk|apply IH; exact Hk].
 Qed.
 
-Lemma http_ideal_persistent cfg fuel : persistent (http_prog cfg true fuel).
+Lemma http_ideal_persistent cfg fuel : persistent (http_prog cfg MODE_REF fuel).
 Proof.
-  induction fuel as [|f IH]; cbn [http_prog]; [constructor|].
+  unfold MODE_REF. induction fuel as [|f IH]; cbn [http_prog m_fresh m_short]; [constructor|].
   constructor. intros res. destruct (tp_line res) as [line|]; [|constructor].
   destruct (cut SP line) as [m [rest|]]; [|constructor].
   destruct (cut SP rest) as [u [p|]]; [|constructor].
   destruct (negb (request_line_ok m u p)); [constructor|].
   apply http_headers_persistent. intros h.
-  assert (Hagain : persistent (if h_loop cfg then http_prog cfg true f else PDone 0))
+  assert (Hagain : persistent (if h_loop cfg then http_prog cfg (mkMode false false) f else PDone 0))
     by (destruct (h_loop cfg); [exact IH|constructor]).
   repeat (first [exact Hagain | apply http_discard_ideal_persistent | per_step]).
 Qed.
@@ -376,17 +376,17 @@ Proof. unfold run_impl, expected. apply persistent_obs. apply redis_persistent. 
 (* one request per connection, body read to its end (eos, ethereum): the only fresh reader is
    the first one, created before anything was buffered *)
 Lemma http_single_readall_is_ideal e fuel :
-  http_prog (mkHttp false BReadAll e) false (S fuel) = PNewReader (http_prog (mkHttp false BReadAll e) true (S fuel)).
+  http_prog (mkHttp false BReadAll e) MODE_CODE (S fuel) = PNewReader (http_prog (mkHttp false BReadAll e) MODE_REF (S fuel)).
 Proof. reflexivity. Qed.
 
 Lemma http_single_readall_run e fuel c :
-  seg_obs (http_prog (mkHttp false BReadAll e) false fuel) c =
-  str_obs (http_prog (mkHttp false BReadAll e) true fuel) (concat c).
+  seg_obs (http_prog (mkHttp false BReadAll e) MODE_CODE fuel) c =
+  str_obs (http_prog (mkHttp false BReadAll e) MODE_REF fuel) (concat c).
 Proof.
   destruct fuel as [|f]; [reflexivity|]. rewrite http_single_readall_is_ideal.
   pose proof (persistent_obs _ c (http_ideal_persistent (mkHttp false BReadAll e) (S f))) as H.
   unfold seg_obs in *. cbn [run_seg]. unfold new_reader in *. cbn [rbuf rsrc] in *.
-  destruct (run_seg (http_prog (mkHttp false BReadAll e) true (S f)) (mkRd [] c)) as [[es cd] d].
+  destruct (run_seg (http_prog (mkHttp false BReadAll e) MODE_REF (S f)) (mkRd [] c)) as [[es cd] d].
   exact H.
 Qed.
 
